@@ -109,7 +109,7 @@ type builder struct {
 func (b *builder) start() {
 	graphname := "unnamed"
 	if b.config.Title != "" {
-		graphname = b.config.Title
+		graphname = escapeForDot(b.config.Title)
 	}
 	fmt.Fprintln(b, `digraph "`+graphname+`" {`)
 	fmt.Fprintln(b, `node [style=filled fillcolor="#f8f8f8"]`)
@@ -133,7 +133,7 @@ func (b *builder) addLegend() {
 		fmt.Fprintf(b, ` URL="%s" target="_blank"`, b.config.LegendURL)
 	}
 	if b.config.Title != "" {
-		fmt.Fprintf(b, ` tooltip="%s"`, b.config.Title)
+		fmt.Fprintf(b, ` tooltip="%s"`, escapeForDot(b.config.Title))
 	}
 	fmt.Fprintf(b, "] }\n")
 }
@@ -248,7 +248,7 @@ func (b *builder) addNodelets(node *Node, nodeID int) bool {
 			continue
 		}
 		weight := b.config.FormatValue(w)
-		nodelets += fmt.Sprintf(`N%d_%d [label = "%s" id="N%d_%d" fontsize=8 shape=box3d tooltip="%s"]`+"\n", nodeID, i, t.Name, nodeID, i, weight)
+		nodelets += fmt.Sprintf(`N%d_%d [label = "%s" id="N%d_%d" fontsize=8 shape=box3d tooltip="%s"]`+"\n", nodeID, i, escapeLabelsForDot(t.Name), nodeID, i, weight)
 		nodelets += fmt.Sprintf(`N%d -> N%d_%d [label=" %s" weight=100 tooltip="%s" labeltooltip="%s"]`+"\n", nodeID, nodeID, i, weight, weight, weight)
 		if nts := lnts[t.Name]; nts != nil {
 			nodelets += b.numericNodelets(nts, maxNodelets, flatTags, fmt.Sprintf(`N%d_%d`, nodeID, i))
@@ -391,7 +391,10 @@ func multilinePrintableName(info *NodeInfo) string {
 	infoCopy.Name = strings.Replace(infoCopy.Name, "[...]", "[…]", -1)
 	infoCopy.Name = strings.Replace(infoCopy.Name, ".", `\n`, -1)
 	if infoCopy.File != "" {
-		infoCopy.File = filepath.Base(infoCopy.File)
+		infoCopy.File = escapeForDot(filepath.Base(infoCopy.File))
+	}
+	if infoCopy.Objfile != "" {
+		infoCopy.Objfile = escapeForDot(infoCopy.Objfile)
 	}
 	return strings.Join(infoCopy.NameComponents(), `\n`) + `\n`
 }
@@ -476,6 +479,12 @@ func min64(a, b int64) int64 {
 		return a
 	}
 	return b
+}
+
+// escapeLabelsForDot escapes a tag name made of labels joined by the literal
+// two-character sequence `\n` (see joinLabels), keeping that separator intact.
+func escapeLabelsForDot(name string) string {
+	return strings.Join(escapeAllForDot(strings.Split(name, `\n`)), `\n`)
 }
 
 // escapeAllForDot applies escapeForDot to all strings in the given slice.
